@@ -28,6 +28,18 @@ def handle (j : Json) : Json :=
             ("seed", jList (fun r => jNats ((loc r).map (·.1))) ranks),
             ("computed", jList (fun r => jNats (computeLocalIndices counts r)) ranks)]
     | _, _, _ => jErr "bad-args"
+  | some "sync" =>
+    -- {"op":"sync","modes":[0|1,..] (0 = MAP, 1 = sampled),"p":tasks,"rootkeeps":bool} -> do all sync checks pass?
+    match fNatList? j "modes", fNat? j "p", fBool? j "rootkeeps" with
+    | some modes, some p, some rk =>
+      if p == 0 then jErr "bad-args" else
+      let ms := modes.map (fun m => if m == 0 then Mode.map else Mode.sampled)
+      let st : RankSt Nat Nat := ⟨⟨5, .fresh⟩, 0⟩
+      let w : World Nat Nat := ⟨st, List.replicate (p - 1) st⟩
+      let ok := if rk then checksPass bcastRootKeeps (· + 1) (· * 2) (· + 1) ms w
+                else checksPass bcastCopy (· + 1) (· * 2) (· + 1) ms w
+      jObj [("pass", Json.bool ok)]
+    | _, _, _ => jErr "bad-args"
   | _ => jErr "bad-op"
 
 def main : IO Unit := run handle
